@@ -111,13 +111,16 @@ def make (c):
         elif kind == 'lap':
             loads.append (dict (k = 'lap', a = [1.0, float (10 ** rng.uniform (-9, -7))], b = [float (10 ** rng.uniform (0, 2)), float (10 ** rng.uniform (-7, -5))], att = where))
         else:
-            loads.append (dict (k = 'skin', cond = float (10 ** rng.uniform (4.5, 7.8)), tag = None))
+            # from copper down to resistive wire (the loss is then a sizeable part of the balance)
+            loads.append (dict (k = 'skin', cond = float (10 ** rng.uniform (2.5, 7.8)), tag = None))
     if spec.get ('media') is not None and rng.random () < 0.35:
         # resistive load in a feed location (for ground families the first feed is the grounded base)
         fd = [x for x in spec.get ('feeds') or [] if abs (x ['at'][2]) < 1e-12]
         if fd:
             loads.append (dict (k = 'z', z = [float (10 ** rng.uniform (0.5, 2.5)), float (rng.uniform (-50, 50))], at = fd [0]['at']))
     spec ['loads'] = loads
+    if band == 'decide':
+        gen.taper_some (np.random.default_rng ([c ['seed'], 11, c ['i']]), spec, 0.2, min_radii = 8.5)
     spec ['band'] = band
     spec ['refine'] = bool (c ['i'] % 8 == 0)
     return gen.clean (spec)
